@@ -30,7 +30,7 @@ def verdict_guard(body):
     okb = oks[0][0]
     found = None
     for a, s, c, truth in guard_conditions(body, okb):
-        if c["kind"] == "call" and resolved_is(c["term"], r"<subtle::Choice as std::convert::Into<bool>>::into"):
+        if c["kind"] == "call" and resolved_is(c["term"], r"<subtle::Choice as std::convert::Into<bool>>::into|<bool as std::convert::From<subtle::Choice>>::from|impl std::convert::From<subtle::Choice> for bool>::from"):
             found = (a, s, c, truth)
     if not found:
         return None, "the Ok block bb%d is not control-dependent on a bool made from subtle::Choice" % okb
@@ -391,6 +391,14 @@ def r6(ctx):
         yield VIOL("C01-R6", "canonical_request_sha256/dataflow", "not sha256(self.canonical_request(signed_headers))", where=loc(c.j["span"]))
     else:
         yield PASS("C01-R6", "canonical_request_sha256/dataflow", "sha256(self.canonical_request(signed_headers))", [loc(c.j["span"])])
+        # the bytes hashed are the canonical request's bytes as they are: only re-borrows between the two calls
+        sh = cs.find_calls(r"crypto::sha256$")
+        between = c.slice_op(sh[0][1]["args"][0], stop_at_calls=lambda t: bool(re.search(r"CanonicalRequest::canonical_request$", t.get("callee", ""))))
+        alter = [cn for cn in between.callee_names() if not re.search(r"CanonicalRequest::canonical_request$|ops::Deref::deref$|convert::AsRef::as_ref$|borrow::Borrow::borrow$|Vec::<T, A>::as_slice$|slice::<impl \[T\]>::as_ref$", cn)]
+        if alter:
+            yield VIOL("C01-R6", "canonical_request_sha256/bytes-as-they-are", "the canonical request is transformed (%s) before it is hashed: e.g. a lossy UTF-8 conversion maps every non-UTF-8 header byte to U+FFFD, so different requests share one signature" % alter, where=c.span_of_block(sh[0][0]))
+        else:
+            yield PASS("C01-R6", "canonical_request_sha256/bytes-as-they-are", "sha256 is applied to the Vec<u8> returned by canonical_request, re-borrowed only", [site(c, sh[0][0], "sha256")])
     # SigV4Authenticator accessors return like-named fields; builder setters set like-named fields
     for acc_name in ("canonical_request_sha256", "credential", "signature", "request_timestamp", "session_token"):
         a = ctx.fn("auth::SigV4Authenticator::" + acc_name)
